@@ -242,6 +242,23 @@ theorem need_rekey_exception_loses_nothing (need check : Bool) (n got used : Nat
           exact ⟨by omega, hc.2.1⟩
         · simp only [hc, if_false] at h
           exact ih _ _ _ h
+      | eagain =>
+        simp only at h
+        by_cases hc : check = true ∧ got = 0 ∧ need = true
+        · simp only [hc, and_self, if_true, ReadResult.needRekey.injEq] at h
+          exact ⟨by omega, hc.2.1⟩
+        · simp only [hc, if_false] at h
+          exact ih _ _ _ h
+
+/-- **However the socket says "nothing yet", an idle link starts the pending re-exchange.**  `socket.timeout` and
+`socket.error(EAGAIN)` are the same event for `read_all`: on an idle header read with a request pending both leave
+with NeedRekeyException, so the run loop gets to send KEXINIT.  (AST of `read_all`, read on every run: the rekey test
+is shared by both idle branches — it follows the `try`, under the `got_timeout` flag — not written into one of them.) -/
+theorem idle_poll_starts_rekey_whatever_its_style (n used : Nat) (evs : List SockEv) (hn : n ≠ 0) :
+    readAll true true n 0 used (.timeout :: evs) = .needRekey 0 ∧
+    readAll true true n 0 used (.eagain :: evs) = .needRekey 0 ∧
+    Generated.C11.readAllIdleBranchesShareRekeyTest = true := by
+  refine ⟨by simp [readAll, hn], by simp [readAll, hn], by decide⟩
 
 /-- a read that succeeds took exactly the bytes it was asked for: an idle timeout in the middle of a packet
 (rekey pending or not) just waits -/
